@@ -162,10 +162,16 @@ func specProgram(p *telemetry.ProgramReport) bool {
 //@   requires $mode != "off"
 //@   modifies $fsops, $minsize
 
+// findProgReport: the entry a count file's counters are added to carries exactly
+// that file's five build values (so data of one build never lands under the
+// label of another), and it is an entry of the report: an existing one, or a
+// new one appended with empty maps.
 //@ contract findProgReport
 //@   requires report != nil && meta != nil
 //@   requires forall i int :: 0 <= i && i < len(report.Programs) ==> specProgram(report.Programs[i])
 //@   ensures specProgram(result)
+//@   ensures result.Program == meta["Program"] && result.Version == meta["Version"] && result.GoVersion == meta["GoVersion"] && result.GOOS == meta["GOOS"] && result.GOARCH == meta["GOARCH"]
+//@   ensures (len(report.Programs) == old(len(report.Programs)) && !fresh(result)) || (len(report.Programs) == old(len(report.Programs))+1 && fresh(result) && report.Programs[len(report.Programs)-1] == result)
 //@   ensures forall i int :: 0 <= i && i < len(report.Programs) ==> specProgram(report.Programs[i])
 //@   modifies report.Programs
 
